@@ -97,6 +97,7 @@ func (c *channel) newNodeStream(conn *grpc.ClientConn) error {
 	c.streamCtx, c.cancelStream = context.WithCancel(c.parentCtx)
 	c.gorumsClient = ordering.NewGorumsClient(conn)
 	c.gorumsStream, err = c.gorumsClient.NodeStream(c.streamCtx)
+	vEmit("FirstStream", c.node.ID(), 0, "ok", err == nil)
 	c.streamMut.Unlock()
 	if err != nil {
 		return err
@@ -107,6 +108,7 @@ func (c *channel) newNodeStream(conn *grpc.ClientConn) error {
 		// connEstablished indicates dial was successful
 		// and that receiver have started
 		c.connEstablished.set()
+		vEmit("ReceiverStart", c.node.ID(), 0)
 		go c.receiver()
 	}
 	return nil
@@ -115,7 +117,9 @@ func (c *channel) newNodeStream(conn *grpc.ClientConn) error {
 func (c *channel) cancelPendingMsgs() {
 	c.responseMut.Lock()
 	defer c.responseMut.Unlock()
+	vEmit("CancelPending", c.node.ID(), 0, "routers", len(c.responseRouters))
 	for msgID, router := range c.responseRouters {
+		vEmit("Route", c.node.ID(), msgID, "found", true, "streaming", router.streaming, "why", "down")
 		router.c <- response{nid: c.node.ID(), err: streamDownErr}
 		// delete the router if we are only expecting a single reply message
 		if !router.streaming {
@@ -127,7 +131,9 @@ func (c *channel) cancelPendingMsgs() {
 func (c *channel) routeResponse(msgID uint64, resp response) {
 	c.responseMut.Lock()
 	defer c.responseMut.Unlock()
+	vRouteMiss(c, msgID)
 	if router, ok := c.responseRouters[msgID]; ok {
+		vEmit("Route", c.node.ID(), msgID, "found", true, "streaming", router.streaming, "why", "resp", "err", resp.err != nil, "empty", resp.msg == nil && resp.err == nil)
 		router.c <- resp
 		// delete the router if we are only expecting a single reply message
 		if !router.streaming {
@@ -140,15 +146,19 @@ func (c *channel) enqueue(req request, responseChan chan<- response, streaming b
 	if responseChan != nil {
 		c.responseMut.Lock()
 		c.responseRouters[req.msg.Metadata.MessageID] = responseRouter{responseChan, streaming}
+		vEmit("RegisterRouter", c.node.ID(), req.msg.Metadata.MessageID, "streaming", streaming, "routers", len(c.responseRouters))
 		c.responseMut.Unlock()
 	}
+	vGate("HandOffWait", c.node.ID(), req.msg.Metadata.MessageID)
 	// either enqueue the request on the sendQ or respond
 	// with error if the node is closed
 	select {
 	case <-c.parentCtx.Done():
+		vEmit("ClosedReply", c.node.ID(), req.msg.Metadata.MessageID)
 		c.routeResponse(req.msg.Metadata.MessageID, response{nid: c.node.ID(), err: fmt.Errorf("channel closed")})
 		return
 	case c.sendQ <- req:
+		vEmit("HandOff", c.node.ID(), req.msg.Metadata.MessageID)
 	}
 }
 
@@ -156,6 +166,7 @@ func (c *channel) deleteRouter(msgID uint64) {
 	c.responseMut.Lock()
 	defer c.responseMut.Unlock()
 	delete(c.responseRouters, msgID)
+	vEmit("DeleteRouter", c.node.ID(), msgID, "routers", len(c.responseRouters))
 }
 
 func (c *channel) sendMsg(req request) (err error) {
@@ -167,6 +178,7 @@ func (c *channel) sendMsg(req request) (err error) {
 		// will not block on the response channel, and the "receiver" goroutine below will
 		// eventually clean up the responseRouter map by calling routeResponse.
 		if req.waitForSend() {
+			vEmit("Confirm", c.node.ID(), req.msg.Metadata.MessageID)
 			// unblock the caller and clean up the responseRouter map
 			c.routeResponse(req.msg.Metadata.MessageID, response{})
 		}
@@ -174,11 +186,15 @@ func (c *channel) sendMsg(req request) (err error) {
 
 	// don't send if context is already cancelled.
 	if req.ctx.Err() != nil {
+		vEmit("CtxSkip", c.node.ID(), req.msg.Metadata.MessageID)
 		return req.ctx.Err()
 	}
 
+	vGate("SndRLockWait", c.node.ID(), req.msg.Metadata.MessageID)
 	c.streamMut.RLock()
+	vEmit("SndRLocked", c.node.ID(), req.msg.Metadata.MessageID)
 	defer c.streamMut.RUnlock()
+	defer vEmit("SndRUnlock", c.node.ID(), req.msg.Metadata.MessageID)
 
 	done := make(chan struct{})
 
@@ -198,16 +214,19 @@ func (c *channel) sendMsg(req request) (err error) {
 				// false alarm
 			default:
 				// trigger reconnect
+				vEmit("WatcherCancel", c.node.ID(), req.msg.Metadata.MessageID)
 				c.cancelStream()
 			}
 		}
 	}()
 
+	vGate("SendWait", c.node.ID(), req.msg.Metadata.MessageID)
 	err = c.gorumsStream.SendMsg(req.msg)
 	if err != nil {
 		c.setLastErr(err)
 		c.streamBroken.set()
 	}
+	vEmit("SendDone", c.node.ID(), req.msg.Metadata.MessageID, "ok", err == nil)
 
 	close(done)
 
@@ -219,23 +238,29 @@ func (c *channel) sender() {
 	for {
 		select {
 		case <-c.parentCtx.Done():
+			vEmit("SenderExit", c.node.ID(), 0)
 			return
 		case req = <-c.sendQ:
+			vEmit("Dequeue", c.node.ID(), req.msg.Metadata.MessageID)
 		}
+		vGate("SndConnCheck", c.node.ID(), req.msg.Metadata.MessageID)
 		// try to connect to the node if previous attempts
 		// have failed or if the node has disconnected
 		if !c.isConnected() {
+			vEmit("SndConnect", c.node.ID(), req.msg.Metadata.MessageID)
 			// streamBroken will be set if the reconnection fails
 			c.connect()
 		}
 		// return error if stream is broken
 		if c.streamBroken.get() {
+			vEmit("BrokenReply", c.node.ID(), req.msg.Metadata.MessageID)
 			c.routeResponse(req.msg.Metadata.MessageID, response{nid: c.node.ID(), err: streamDownErr})
 			continue
 		}
 		// else try to send message
 		err := c.sendMsg(req)
 		if err != nil {
+			vEmit("ErrReply", c.node.ID(), req.msg.Metadata.MessageID)
 			// return the error
 			c.routeResponse(req.msg.Metadata.MessageID, response{nid: c.node.ID(), err: err})
 		}
@@ -245,10 +270,13 @@ func (c *channel) sender() {
 func (c *channel) receiver() {
 	for {
 		resp := newMessage(responseType)
+		vGate("RcvRLockWait", c.node.ID(), 0)
 		c.streamMut.RLock()
+		vEmit("RecvWait", c.node.ID(), 0)
 		err := c.gorumsStream.RecvMsg(resp)
 		if err != nil {
 			c.streamBroken.set()
+			vEmit("RecvErr", c.node.ID(), 0)
 			c.streamMut.RUnlock()
 			c.setLastErr(err)
 			// we only reach this point when the stream failed AFTER a message
@@ -259,6 +287,7 @@ func (c *channel) receiver() {
 			// This is necessary when streaming is enabled.
 			c.reconnect(-1)
 		} else {
+			vEmit("RecvOk", c.node.ID(), resp.Metadata.MessageID)
 			c.streamMut.RUnlock()
 			err := status.FromProto(resp.Metadata.GetStatus()).Err()
 			c.routeResponse(resp.Metadata.MessageID, response{nid: c.node.ID(), msg: resp.Message, err: err})
@@ -266,6 +295,7 @@ func (c *channel) receiver() {
 
 		select {
 		case <-c.parentCtx.Done():
+			vEmit("ReceiverExit", c.node.ID(), 0)
 			return
 		default:
 		}
@@ -278,6 +308,7 @@ func (c *channel) connect() error {
 		// a previous dial attempt could have failed.
 		// try dialing again.
 		err := c.node.dial()
+		vEmit("Dial", c.node.ID(), 0, "ok", err == nil)
 		if err != nil {
 			c.streamBroken.set()
 			return err
@@ -305,15 +336,19 @@ func (c *channel) reconnect(maxRetries float64) {
 	var retries float64
 	for {
 		var err error
+		vGate("ReconLockWait", c.node.ID(), 0, "who", maxRetries)
 		c.streamMut.Lock()
+		vEmit("ReconLocked", c.node.ID(), 0, "who", maxRetries)
 		// check if stream is already up
 		if !c.streamBroken.get() {
+			vEmit("ReconSeeUp", c.node.ID(), 0, "who", maxRetries)
 			// do nothing because stream is up
 			c.streamMut.Unlock()
 			return
 		}
 		c.streamCtx, c.cancelStream = context.WithCancel(c.parentCtx)
 		c.gorumsStream, err = c.gorumsClient.NodeStream(c.streamCtx)
+		vEmit("ReconNewStream", c.node.ID(), 0, "who", maxRetries, "ok", err == nil)
 		if err == nil {
 			c.streamBroken.clear()
 			c.streamMut.Unlock()
@@ -324,6 +359,7 @@ func (c *channel) reconnect(maxRetries float64) {
 		c.setLastErr(err)
 		if retries >= maxRetries && maxRetries > 0 {
 			c.streamBroken.set()
+			vEmit("ReconGiveUp", c.node.ID(), 0, "who", maxRetries)
 			return
 		}
 		delay := float64(backoffCfg.BaseDelay)
@@ -333,10 +369,13 @@ func (c *channel) reconnect(maxRetries float64) {
 		}
 		delay = math.Min(delay, max)
 		delay *= 1 + backoffCfg.Jitter*(rand.Float64()*2-1)
+		vEmit("ReconSleep", c.node.ID(), 0, "who", maxRetries, "delay", int64(delay))
 		select {
 		case <-time.After(time.Duration(delay)):
 			retries++
+			vEmit("ReconTimer", c.node.ID(), 0, "who", maxRetries)
 		case <-c.parentCtx.Done():
+			vEmit("ReconParentDone", c.node.ID(), 0, "who", maxRetries)
 			return
 		}
 	}
